@@ -42,6 +42,8 @@ def study_fn(run_dir, *args):
         ctx.unknown_inputs.append((values, names))
     step = k.step if k is not None else 0
     ctx.records.append((case, ctx.attempt, step))
+    if k is None and getattr(ctx, 'on_study_enter', None) is not None:
+        ctx.on_study_enter()
     if k is not None and hasattr(ctx, 'last_case'):
         ctx.last_case[k.current.name] = case
     if k is not None:
